@@ -7,6 +7,7 @@ WT=/scratch/seedtest-$PID-$$
 git -C /repo worktree add -q $WT HEAD || exit 9
 cd $WT
 if ! git apply "$DIR/patch.diff"; then echo "PATCH DOES NOT APPLY"; git -C /repo worktree remove --force $WT; exit 9; fi
+mkdir -p /scratch/seedtest-cwd; cd /scratch/seedtest-cwd
 echo "== demo on changed tree:"; PYTHONPATH=$WT timeout 600 /venv/bin/python "$DIR/demo.py" > /scratch/seedtest-$PID-demo1.log 2>&1; echo "exit $?"; tail -3 /scratch/seedtest-$PID-demo1.log
 echo "== demo on unchanged tree:"; PYTHONPATH=/repo timeout 600 /venv/bin/python "$DIR/demo.py" > /scratch/seedtest-$PID-demo0.log 2>&1; echo "exit $?"; tail -2 /scratch/seedtest-$PID-demo0.log
 if [ "$NOSUITE" != "--no-suite" ]; then
@@ -23,7 +24,7 @@ print("stable tests passing: %d/%d" % (len(stable & passed), len(stable)), missi
 PY
 fi
 echo "== check $PID against changed tree:"
-cd /verif && VERIF_REPO=$WT ./check $PID 2>&1 | grep -E "VIOLATION|KNOWN-FINDING|obligations" | head -8
+cd /verif && VERIF_REPO=$WT ./check $PID 2>&1 | grep -E "VIOLATION|KNOWN-FINDING|obligations" | cut -c1-160 | head -20
 cp /verif/build/evidence-scratch/$PID.json /scratch/seedtest-$PID-evidence.json 2>/dev/null
 mkdir -p /scratch/seedtest-$PID-replays; cp /verif/replays/$PID-*.json /scratch/seedtest-$PID-replays/ 2>/dev/null
 git -C /repo worktree remove --force $WT
